@@ -80,7 +80,16 @@ def func_nodes(tree, qualnames):
 def mutation_sites(fn):
     """yield (description, applier) where applier(node_in_copy) mutates in place; addressed by walk index"""
     sites = []
+    # type annotations are not behaviour: leave them alone
+    skip = set()
+    for a in ast.walk(fn):
+        for fld in ("annotation", "returns"):
+            sub = getattr(a, fld, None)
+            if isinstance(sub, ast.AST):
+                skip.update(id(x) for x in ast.walk(sub))
     for idx, n in enumerate(ast.walk(fn)):
+        if id(n) in skip:
+            continue
         ln = getattr(n, "lineno", 0)
         if isinstance(n, ast.Compare):
             for j, op in enumerate(n.ops):
